@@ -84,3 +84,187 @@ def rand_token(rng, big=False, names=DIS_NAMES):
 
 def rand_script(rng, maxlen=60, big=False, names=DIS_NAMES):
     return [rand_token(rng, big, names) for _ in range(rng.randrange(0, maxlen + 1))]
+
+
+# ------------------------------------------------------------------------------------------------
+# transactions: descriptor <-> library objects <-> driver s-expression
+
+NULL_TXID = "00" * 32
+
+
+def tx_sx(t):
+    ins = " ".join("(x%s %d %s x%s)" % (i["txid"], i["vout"], toks_sx(i["script"]).s, i["seq"]) for i in t["ins"])
+    outs = " ".join("(%d %s)" % (o["amt"], toks_sx(o["script"]).s) for o in t["outs"])
+    wits = " ".join("(" + " ".join("x" + it for it in st) + ")" for st in t["wits"])
+    return Raw("(tx x%s %d (%s) (%s) x%s (%s))" % (t["ver"], 1 if t["sw"] else 0, ins, outs, t["lt"], wits))
+
+
+def tx_build(t):
+    from bitcoinutils.transactions import Transaction, TxInput, TxOutput, TxWitnessInput
+    from bitcoinutils.script import Script
+    ins = [TxInput(i["txid"], i["vout"], Script([tok_py(x) for x in i["script"]]), bytes.fromhex(i["seq"])) for i in t["ins"]]
+    outs = [TxOutput(o["amt"], Script([tok_py(x) for x in o["script"]])) for o in t["outs"]]
+    wits = [TxWitnessInput(list(st)) for st in t["wits"]]
+    return Transaction(ins, outs, bytes.fromhex(t["lt"]), bytes.fromhex(t["ver"]), t["sw"], wits)
+
+
+def lib_tx_facts(tx):
+    return "|".join([tx.to_hex(), tx.to_bytes(False).hex(), tx.get_txid(), tx.get_wtxid(), str(tx.get_size()), str(tx.get_vsize())])
+
+
+def dump_lib_tx(tx):
+    def sin(i):
+        if i.txid == NULL_TXID:
+            sc = i.script_sig.script
+            s = ("cb" + sc[0]) if len(sc) == 1 and isinstance(sc[0], str) else "cb?" + show_lib_tokens(sc)
+        else:
+            s = show_lib_tokens(i.script_sig.script)
+        return "%s:%d:%s:%s" % (i.txid, i.txout_index, s, i.sequence.hex())
+    return ("v=" + tx.version.hex() + ";sw=%d" % (1 if tx.has_segwit else 0)
+            + ";in=" + "/".join(sin(i) for i in tx.inputs)
+            + ";out=" + "/".join("%d:%s" % (o.amount, show_lib_tokens(o.script_pubkey.script)) for o in tx.outputs)
+            + ";lt=" + tx.locktime.hex()
+            + ";wit=" + "/".join(".".join("x" + it for it in w.stack) for w in tx.witnesses))
+
+
+def apply_mut(t, m):
+    """pure version of a mutation on the descriptor (returns a new descriptor)"""
+    import copy
+    t = copy.deepcopy(t)
+    k = m["m"]
+    if k == "amount": t["outs"][m["i"]]["amt"] = m["v"]
+    elif k == "out_script": t["outs"][m["i"]]["script"] = m["script"]
+    elif k == "replace_out": t["outs"][m["i"]] = {"amt": m["v"], "script": m["script"]}
+    elif k == "add_out": t["outs"].append({"amt": m["v"], "script": m["script"]})
+    elif k == "del_out": t["outs"].pop()
+    elif k == "locktime": t["lt"] = m["v"]
+    elif k == "version": t["ver"] = m["v"]
+    elif k == "script_sig": t["ins"][m["i"]]["script"] = m["script"]
+    elif k == "seq": t["ins"][m["i"]]["seq"] = m["v"]
+    elif k == "vout": t["ins"][m["i"]]["vout"] = m["v"]
+    elif k == "witness":
+        t["wits"][m["i"]] = m["stack"]
+    elif k == "witness_item":
+        t["wits"][m["i"]][m["j"]] = m["v"]
+    elif k == "segwit": t["sw"] = m["v"]
+    else: raise KeyError(k)
+    return t
+
+
+def apply_mut_lib(tx, m):
+    """the same mutation through the public attributes of the library objects"""
+    from bitcoinutils.transactions import TxOutput
+    from bitcoinutils.script import Script
+    k = m["m"]
+    if k == "amount": tx.outputs[m["i"]].amount = m["v"]
+    elif k == "out_script": tx.outputs[m["i"]].script_pubkey = Script([tok_py(x) for x in m["script"]])
+    elif k == "replace_out": tx.outputs[m["i"]] = TxOutput(m["v"], Script([tok_py(x) for x in m["script"]]))
+    elif k == "add_out": tx.outputs.append(TxOutput(m["v"], Script([tok_py(x) for x in m["script"]])))
+    elif k == "del_out": tx.outputs.pop()
+    elif k == "locktime": tx.locktime = bytes.fromhex(m["v"])
+    elif k == "version": tx.version = bytes.fromhex(m["v"])
+    elif k == "script_sig": tx.inputs[m["i"]].script_sig = Script([tok_py(x) for x in m["script"]])
+    elif k == "seq": tx.inputs[m["i"]].sequence = bytes.fromhex(m["v"])
+    elif k == "vout": tx.inputs[m["i"]].txout_index = m["v"]
+    elif k == "witness": tx.witnesses[m["i"]].stack = list(m["stack"])
+    elif k == "witness_item": tx.witnesses[m["i"]].stack[m["j"]] = m["v"]
+    elif k == "segwit": tx.has_segwit = m["v"]
+    else: raise KeyError(k)
+
+
+def rand_hex(rng, n):
+    return bytes(rng.getrandbits(8) for _ in range(n)).hex()
+
+
+def rand_txid(rng):
+    while True:
+        h = rand_hex(rng, 32)
+        if h != NULL_TXID:
+            return h
+
+
+def rand_amount(rng):
+    return rng.choice([0, 1, 546, 2 ** 63 - 1, 2 ** 32, rng.getrandbits(rng.choice([16, 32, 40, 62]))])
+
+
+def rand_seq(rng):
+    return rng.choice(["ffffffff", "feffffff", "fdffffff", "00000000", "01000000", "0a004000", rand_hex(rng, 4)])
+
+
+def rand_stack(rng, big=False):
+    r = rng.random()
+    if r < 0.25:
+        return []
+    n = rng.choice([1, 2, 2, 3, 4, 5, 10])
+    if big and rng.random() < 0.3:
+        n = rng.choice([127, 128, 252, 253, 300])
+    st = []
+    for _ in range(n):
+        ln = rng.choice([0, 1, 32, 33, 64, 71, 72, 73, 105, 252, 253, 254]) if n < 20 else rng.choice([0, 1, 2, 33])
+        st.append(rand_data(rng, ln))
+    if big and n < 20 and rng.random() < 0.3:
+        st[rng.randrange(len(st))] = rand_data(rng, rng.choice([255, 256, 520, 65535, 65536, 70000]))
+    return st
+
+
+def rand_tx(rng, nin=None, nout=None, segwit=None, coinbase=False, big=False, scripts=True, min_out=0):
+    nin = nin if nin is not None else rng.choice([1, 1, 2, 3, 5, 8])
+    nout = nout if nout is not None else rng.choice([min_out, 1, 1, 2, 3, 5, 8])
+    nout = max(nout, min_out)
+    sw = segwit if segwit is not None else (rng.random() < 0.5)
+    ins = []
+    for k in range(nin):
+        sc = rand_script(rng, rng.choice([0, 0, 2, 5]), big=big and rng.random() < 0.05) if scripts else []
+        ins.append({"txid": rand_txid(rng), "vout": rng.choice([0, 1, 2, 2 ** 32 - 1, rng.getrandbits(32), rng.getrandbits(8)]),
+                    "script": sc, "seq": rand_seq(rng)})
+    if coinbase:
+        ins[0] = {"txid": NULL_TXID, "vout": 0xFFFFFFFF, "script": [["data", rand_data(rng, rng.choice([0, 2, 40, 100]))]], "seq": "ffffffff"}
+    outs = [{"amt": rand_amount(rng), "script": rand_script(rng, rng.choice([0, 2, 5, 5]), big=big and rng.random() < 0.05) if scripts
+             else [["op", "OP_1"]]} for _ in range(nout)]
+    wits = [rand_stack(rng, big=big and nin <= 3) for _ in range(nin)] if sw else []
+    return {"ver": rng.choice(["01000000", "02000000", "02000000", "03000000", rand_hex(rng, 4)]), "sw": sw, "ins": ins, "outs": outs,
+            "lt": rng.choice(["00000000", "00000000", "ffffffff", "0065cd1d", rand_hex(rng, 4)]), "wits": wits}
+
+
+def rand_mut(rng, t):
+    """a mutation applicable to descriptor t"""
+    ch = ["locktime", "version", "seq", "script_sig", "vout"]
+    if t["outs"]:
+        ch += ["amount", "amount", "out_script", "replace_out", "del_out"]
+    ch += ["add_out"]
+    if t["sw"] and t["wits"]:
+        ch += ["witness", "witness"]
+    k = rng.choice(ch)
+    i = rng.randrange(len(t["ins"]))
+    if k == "amount": return {"m": k, "i": rng.randrange(len(t["outs"])), "v": rand_amount(rng)}
+    if k == "out_script": return {"m": k, "i": rng.randrange(len(t["outs"])), "script": rand_script(rng, 4)}
+    if k == "replace_out": return {"m": k, "i": rng.randrange(len(t["outs"])), "v": rand_amount(rng), "script": rand_script(rng, 4)}
+    if k == "add_out": return {"m": k, "v": rand_amount(rng), "script": rand_script(rng, 4)}
+    if k == "del_out": return {"m": k}
+    if k == "locktime": return {"m": k, "v": rand_hex(rng, 4)}
+    if k == "version": return {"m": k, "v": rng.choice(["01000000", "02000000", "03000000"])}
+    if k == "script_sig": return {"m": k, "i": i, "script": rand_script(rng, 4)}
+    if k == "seq": return {"m": k, "i": i, "v": rand_seq(rng)}
+    if k == "vout": return {"m": k, "i": i, "v": rng.getrandbits(16)}
+    if k == "witness": return {"m": k, "i": rng.randrange(len(t["wits"])), "stack": rand_stack(rng)}
+    raise KeyError(k)
+
+
+def tx_is_null_in(t):
+    return any(i["txid"] == NULL_TXID for i in t["ins"])
+
+
+def fill_ids(out):
+    """The extracted model leaves txid/wtxid as placeholders (@t after the stripped serialisation, @w three
+    fields after the full one); the abstract hash of the theorems is instantiated here with hashlib's SHA-256."""
+    import hashlib
+    if "@" not in out:
+        return out
+    tk = out.split("|")
+    res = list(tk)
+    for i, x in enumerate(tk):
+        if x == "@t":
+            b = bytes.fromhex(tk[i - 1]); res[i] = hashlib.sha256(hashlib.sha256(b).digest()).digest()[::-1].hex()
+        elif x == "@w":
+            b = bytes.fromhex(tk[i - 3]); res[i] = hashlib.sha256(hashlib.sha256(b).digest()).digest()[::-1].hex()
+    return "|".join(res)
